@@ -267,6 +267,28 @@ def run_property(pid, tier, seed):
                 replay_paths.append(path)
                 bounded['found'] = key
                 break
+    # 4c. thorough tier: the replay enumerators run on the (unchanged) real code as a bounded cross-check of the
+    # trusted stubs; a failing input found here is a demonstrated violation
+    crosscheck = None
+    if tier == 'thorough' and spec.get('replay') and not violations and bounded is None:
+        rp = spec['replay']
+        keys = sorted(set(rp.values())) if isinstance(rp, dict) else [rp]
+        crosscheck = {}
+        for key in keys:
+            try:
+                cex, slog = run_replay_search(key, {'name': 'bounded-crosscheck', 'function': 'prop:' + pid}, seed)
+            except Exception as e:
+                cex, slog = None, 'replay search failed to run: %r' % (e,)
+            crosscheck[key] = slog.strip().split('\n')[-1][:200] if slog else ''
+            if cex:
+                f = {'name': 'bounded-crosscheck::%s' % key, 'unit': 'replay', 'function': key, 'kind': 'bounded cross-check on the real code', 'clause': None, 'site': None,
+                     'rendered': 'the replay enumerator found a failing input on the real code although every obligation was discharged: a trusted stub or an extraction rule misrepresents the code', 'property': pid}
+                path = os.path.join(BUILD, 'replay', '%s-bounded-crosscheck-%s.json' % (pid, key))
+                with open(path, 'w') as fo:
+                    json.dump({'property': pid, 'obligation': f['name'], 'kind': f['kind'], 'verifier_output': f['rendered'], 'failing_input': cex,
+                               'how_to_rerun': './check %s --replay %s' % (pid, path), 'label': 'bounded (not a proof obligation)'}, fo, indent=1)
+                violations.append(f)
+                replay_paths.append(path)
     wall = time.time() - t0
     # 5. evidence
     ev = {
@@ -287,6 +309,7 @@ def run_property(pid, tier, seed):
             'known_findings_hit': [f['name'] for f, _ in known_hits],
             'inconclusive': inconclusive,
             'bounded_standin': bounded,
+            'bounded_crosscheck': crosscheck,
             'obligation_counting_rule': 'per extracted function: ensures clauses + 2 x loop-invariant clauses + decreases clauses + 1 (body safety: panics, overflow, bounds, callee preconditions); per template lemma: 1; per Kani harness: number of CBMC checks reported',
             'explanation': spec.get('explanation', ''),
         },
@@ -401,6 +424,9 @@ def main(argv):
         log(__doc__)
         return 2
     pid = argv[1]
+    if pid == '--selftest':
+        from . import selftest
+        return selftest.run()
     tier = os.environ.get('VERIF_TIER', 'quick')
     seed = int(os.environ.get('VERIF_SEED', '0') or 0)
     replay = None
